@@ -191,3 +191,8 @@ def run(ctx):
     req = set(sp["config"]["required"])
     have = set(re.findall(r"^([A-Za-z_]+):", txt, re.M))
     ctx.check("example-cfg", "required-settings-present", req <= have, "example.cfg sets %s" % sorted(req), "example.cfg lacks %s" % sorted(req - have))
+
+
+def fixture(fctx):
+    import fixture_checks
+    return fixture_checks.nopanic_alive(fctx)
